@@ -406,3 +406,5 @@ func statusOf(r *http.Response) int {
 func urlEscape(s string) string { return url.QueryEscape(s) }
 
 func mkdirAll(d string) { os.MkdirAll(d, 0o700) }
+
+func readFull(r io.Reader, b []byte) (int, error) { return io.ReadFull(r, b) }
